@@ -6,6 +6,11 @@ BASE = json.load(open('/root/.vp/BASELINE.json'))
 
 CHECKS = {
  # id: (category, technique, text, note, design_ref)
+ "C01": ("exploration",
+         "lock-step reference-model monitor (differential execution against an abstract tree, whole-tree observation after every step, alias/snapshot scribbling)",
+         "Every generated history (all histories up to a length bound over a fixed operation alphabet, plus seeded random histories with path spellings and child views) is executed on a fresh memfs and on a tree model written from the statement; result classes and the complete observable tree are compared after every step, every buffer handed in or out is scribbled on and retained listings are re-inspected. Held on the histories executed.",
+         "trusts the model in harness/internal/mfs (lexical normalisation, create-or-replace, empty-only remove, deep copy) and its lenient reading of cases the statement leaves open",
+         "DESIGN.md §5 C01"),
  "C17": ("exploration",
          "runtime oracle over bounded-exhaustive + random inputs (reference splitter / render-split round trip)",
          "ReadArguments is run on every byte string up to a length bound over the 9 significant bytes (no panic, bounded reads, exact expected result on the quote-free sub-language) and on scripts rendered from random argument lists by a reference quoting function; InjectArgs mapping compared with an independent expectation. Held on the enumerated/sampled inputs only.",
